@@ -75,6 +75,8 @@ type decision struct {
 	choice   int
 	n        int
 	vals     []uint64
+	models   []Model
+	altModel Model
 	asserted bool
 	unknown  bool
 }
@@ -198,6 +200,7 @@ func rtPanic(msg string) {
 }
 
 var theInterp *Interp
+var debugImplied = os.Getenv("GOSYM_DEBUG_IMPLIED") != ""
 
 // runDefer runs a deferred call d.
 func (fr *frame) runDefer(d *deferred) {
@@ -252,10 +255,10 @@ func (fr *frame) visitInstr(instr ssa.Instruction) bool {
 	case *ssa.DebugRef:
 
 	case *ssa.UnOp:
-		fr.set(instr, fr.unop(instr, fr.get(instr.X)))
+		fr.set(instr, in.simp(fr.unop(instr, fr.get(instr.X))))
 
 	case *ssa.BinOp:
-		fr.set(instr, in.binop(instr.Op, instr.X.Type(), instr.Y.Type(), fr.get(instr.X), fr.get(instr.Y)))
+		fr.set(instr, in.simp(in.binop(instr.Op, instr.X.Type(), instr.Y.Type(), fr.get(instr.X), fr.get(instr.Y))))
 
 	case *ssa.Call:
 		fn, args := fr.prepareCall(&instr.Call)
@@ -268,7 +271,7 @@ func (fr *frame) visitInstr(instr ssa.Instruction) bool {
 		fr.set(instr, fr.get(instr.X))
 
 	case *ssa.Convert:
-		fr.set(instr, in.conv(instr.Type(), instr.X.Type(), fr.get(instr.X)))
+		fr.set(instr, in.simp(in.conv(instr.Type(), instr.X.Type(), fr.get(instr.X))))
 
 	case *ssa.SliceToArrayPointer:
 		x := fr.get(instr.X).([]value)
@@ -1118,10 +1121,52 @@ func (in *Interp) replayEntry(kind byte) *decision {
 	return nil
 }
 
+// evalModel evaluates a boolean term under the cached model of the path
+// condition: 1 true, 0 false, -1 unknown (no model, or uninterpreted functions).
+func (in *Interp) evalModel(c *Term) (r int) {
+	if in.run.model == nil {
+		return -1
+	}
+	defer func() {
+		if p := recover(); p != nil {
+			if _, ok := p.(evalUF); ok {
+				r = -1
+				return
+			}
+			panic(p)
+		}
+	}()
+	return int(in.run.model.eval(c, map[*Term]uint64{}))
+}
+
+func (in *Interp) evalModelBV(t *Term) (v uint64, ok bool) {
+	if in.run.model == nil {
+		return 0, false
+	}
+	defer func() {
+		if p := recover(); p != nil {
+			if _, isUF := p.(evalUF); isUF {
+				ok = false
+				return
+			}
+			panic(p)
+		}
+	}()
+	return in.run.model.eval(t, map[*Term]uint64{}), true
+}
+
 // branch decides a symbolic condition, forking the path if both sides are feasible.
 func (in *Interp) branch(c *Term) bool {
 	if c.isConst() {
 		return c.cval == 1
+	}
+	switch in.run.abs.cond(c) {
+	case 1:
+		in.res.AbsDecided++
+		return true
+	case -1:
+		in.res.AbsDecided++
+		return false
 	}
 	s := in.solver
 	if d := in.replayEntry('b'); d != nil {
@@ -1134,46 +1179,88 @@ func (in *Interp) branch(c *Term) bool {
 				s.assert(mkNot(c))
 			}
 			d.asserted = true
+			in.run.model = d.altModel
+			d.altModel = nil
 		}
 		if d.unknown {
 			in.run.inconclusive = true
 		}
+		in.run.abs.learn(c, taken)
 		return taken
 	}
 	in.run.decisions++
 	s.emit(c)
-	s.push()
-	s.assert(mkNot(c))
-	rF := s.check()
-	s.pop(1)
-	s.push()
-	s.assert(c)
-	rT := resSat
-	if rF != resUnsat {
-		rT = s.check()
-	}
 	d := decision{kind: 'b', asserted: true}
+	mv := in.evalModel(c)
+	rT, rF := resUnknown, resUnknown
+	var mT, mF Model
+	switch mv {
+	case 1:
+		rT, mT = resSat, in.run.model
+		s.push()
+		s.assert(mkNot(c))
+		rF = s.check()
+		if rF == resSat {
+			mF = s.model()
+		}
+		s.pop(1)
+		s.push()
+		s.assert(c)
+	case 0:
+		rF, mF = resSat, in.run.model
+		s.push()
+		s.assert(c)
+		rT = s.check()
+		if rT == resSat {
+			mT = s.model()
+		}
+	default:
+		s.push()
+		s.assert(mkNot(c))
+		rF = s.check()
+		if rF == resSat {
+			mF = s.model()
+		}
+		s.pop(1)
+		s.push()
+		s.assert(c)
+		rT = resSat
+		if rF != resUnsat {
+			rT = s.check()
+			if rT == resSat {
+				mT = s.model()
+			}
+		}
+	}
 	if rT == resUnknown || rF == resUnknown {
 		d.unknown = true
 		in.run.inconclusive = true
 		in.res.UnknownBranches++
 	}
+	if debugImplied && (rT == resUnsat || rF == resUnsat) {
+		fmt.Fprintf(os.Stderr, "IMPLIED %v/%v: %s\n", rT, rF, termString(c, 4))
+	}
 	switch {
 	case rT != resUnsat && rF != resUnsat:
 		d.choice, d.n = 0, 2
+		d.altModel = mF
+		in.run.model = mT
 	case rT != resUnsat:
 		d.choice, d.n = 0, 1
+		in.run.model = mT
 	case rF != resUnsat:
 		s.pop(1)
 		s.push()
 		s.assert(mkNot(c))
 		d.choice, d.n = 1, 2
+		in.run.model = mF
 	default:
 		s.pop(1)
 		abort(abInfeasible, "both branch sides infeasible")
 	}
 	in.trail = append(in.trail, d)
 	in.pos++
+	in.run.abs.learn(c, d.choice == 0)
 	return d.choice == 0
 }
 
@@ -1185,6 +1272,12 @@ func (in *Interp) assume(c *Term, checkSat bool) {
 		}
 		return
 	}
+	switch in.run.abs.cond(c) {
+	case 1:
+		return
+	case -1:
+		abort(abAssume, "assumption contradicts the path (abstract domain)")
+	}
 	s := in.solver
 	if d := in.replayEntry('a'); d != nil {
 		if !d.asserted {
@@ -1192,22 +1285,32 @@ func (in *Interp) assume(c *Term, checkSat bool) {
 			s.assert(c)
 			d.asserted = true
 		}
+		in.run.abs.learn(c, true)
 		return
 	}
 	s.push()
 	s.assert(c)
-	if checkSat {
-		r := s.check()
-		if r == resUnsat {
-			s.pop(1)
-			abort(abAssume, "assumption infeasible")
-		}
-		if r == resUnknown {
-			in.run.inconclusive = true
+	switch in.evalModel(c) {
+	case 1:
+		// the cached model still satisfies the path condition
+	default:
+		in.run.model = nil
+		if checkSat {
+			r := s.check()
+			if r == resUnsat {
+				s.pop(1)
+				abort(abAssume, "assumption infeasible")
+			}
+			if r == resUnknown {
+				in.run.inconclusive = true
+			} else {
+				in.run.model = s.model()
+			}
 		}
 	}
 	in.trail = append(in.trail, decision{kind: 'a', n: 1, asserted: true})
 	in.pos++
+	in.run.abs.learn(c, true)
 }
 
 // enumerate case-splits a symbolic BV term into its feasible concrete values.
@@ -1215,15 +1318,21 @@ func (in *Interp) enumerate(t *Term, what string, cap_ int) int64 {
 	if t.isConst() {
 		return signExt(t.cval, t.sort.W)
 	}
-	s := in.solver
 	w := t.sort.W
+	if av := in.run.abs.val(t); av.lo == av.hi && w <= 64 {
+		return signExt(av.lo, w)
+	}
+	s := in.solver
 	if d := in.replayEntry('e'); d != nil {
 		v := d.vals[d.choice]
 		if !d.asserted {
 			s.push()
 			s.assert(mkEq(t, mkBV(w, v)))
 			d.asserted = true
+			in.run.model = d.models[d.choice]
+			d.models[d.choice] = nil
 		}
+		in.run.abs.learn(mkEq(t, mkBV(w, v)), true)
 		return signExt(v, w)
 	}
 	in.run.decisions++
@@ -1231,9 +1340,15 @@ func (in *Interp) enumerate(t *Term, what string, cap_ int) int64 {
 		cap_ = in.cfg.EnumCap
 	}
 	var vals []uint64
+	var models []Model
 	s.emit(t)
 	s.push()
 	capped := false
+	if v, ok := in.evalModelBV(t); ok {
+		vals = append(vals, v)
+		models = append(models, in.run.model)
+		s.assert(mkNot(mkEq(t, mkBV(w, v))))
+	}
 	for {
 		r := s.check()
 		if r == resUnknown {
@@ -1250,6 +1365,7 @@ func (in *Interp) enumerate(t *Term, what string, cap_ int) int64 {
 		m := s.model()
 		v := m.eval(t, map[*Term]uint64{})
 		vals = append(vals, v)
+		models = append(models, m)
 		s.assert(mkNot(mkEq(t, mkBV(w, v))))
 	}
 	s.pop(1)
@@ -1260,12 +1376,33 @@ func (in *Interp) enumerate(t *Term, what string, cap_ int) int64 {
 		in.res.CapHits++
 		in.res.note("enumeration cap %d hit for %s", cap_, what)
 	}
-	slices.Sort(vals)
+	// sort values (and their models) ascending for determinism
+	idx := make([]int, len(vals))
+	for i := range idx {
+		idx[i] = i
+	}
+	slices.SortFunc(idx, func(a, b int) int {
+		switch {
+		case vals[a] < vals[b]:
+			return -1
+		case vals[a] > vals[b]:
+			return 1
+		}
+		return 0
+	})
+	sv := make([]uint64, len(vals))
+	sm := make([]Model, len(vals))
+	for i, k := range idx {
+		sv[i], sm[i] = vals[k], models[k]
+	}
 	s.push()
-	s.assert(mkEq(t, mkBV(w, vals[0])))
-	in.trail = append(in.trail, decision{kind: 'e', n: len(vals), vals: vals, asserted: true})
+	s.assert(mkEq(t, mkBV(w, sv[0])))
+	in.run.model = sm[0]
+	sm[0] = nil
+	in.trail = append(in.trail, decision{kind: 'e', n: len(sv), vals: sv, models: sm, asserted: true})
 	in.pos++
-	return signExt(vals[0], w)
+	in.run.abs.learn(mkEq(t, mkBV(w, sv[0])), true)
+	return signExt(sv[0], w)
 }
 
 // concreteInt returns a host integer for an index/size, case-splitting symbolic ones.
